@@ -53,6 +53,52 @@ def objRun : Bool → List ObjEv → Bool × List Bool
   | true, .destroy :: es => let r := objRun false es; (r.1, false :: r.2)
   | alive, _ :: es => objRun alive es            -- not possible for a Go function activation
 
+/-! ### HLS reader sessions (internal/servers/hls: session.initialize / close2, muxer.addSession,
+muxer.apiSessionsKick; the muxer loop's "instance crashed" / "muxer destroyed" handling) -/
+
+structure HState where
+  up : Bool := true                -- muxer.instance != nil
+  plain : List Nat := []           -- sessionsBySecret
+  cdn : Option Nat := none         -- cdnSession
+  seen : List Nat := []            -- session numbers already used by the script
+deriving Repr
+
+inductive HEv | openS (n : Nat) | cdnS (n : Nat) | down | up | kick (n : Nat) | fin
+deriving DecidableEq, Repr
+
+inductive HOut | hook (n : Nat) (start : Bool) | err (n : Nat)
+deriving DecidableEq, Repr
+
+/-- `close2` on every session the muxer references, then forget them -/
+def stopAll (s : HState) : List HOut :=
+  s.plain.map (fun n => HOut.hook n false) ++ (match s.cdn with | some m => [HOut.hook m false] | none => [])
+
+def hlsStep (s : HState) : HEv → HState × List HOut
+  | .openS n =>
+    if n ∈ s.seen then (s, [])
+    else if s.up then ({ s with plain := s.plain ++ [n], seen := n :: s.seen }, [.hook n true])
+    else ({ s with seen := n :: s.seen }, [.err n])            -- addSession: "muxer instance not available"
+  | .cdnS n =>
+    if n ∈ s.seen then (s, [])
+    else if s.up then
+      ({ s with cdn := some n, seen := n :: s.seen },
+        (match s.cdn with | some m => [HOut.hook m false] | none => []) ++ [.hook n true])
+    else ({ s with seen := n :: s.seen }, [.err n])
+  | .down => ({ s with up := false, plain := [], cdn := none }, stopAll s)
+  | .up => ({ s with up := true }, [])
+  | .kick n =>
+    if s.cdn = some n then ({ s with cdn := none }, [.hook n false])
+    else if n ∈ s.plain then ({ s with plain := s.plain.filter (· != n) }, [.hook n false])
+    else (s, [])
+  | .fin => ({ s with plain := [], cdn := none }, stopAll s)
+
+def hlsRun : HState → List HEv → HState × List HOut
+  | s, [] => (s, [])
+  | s, e :: es =>
+    let r := hlsStep s e
+    let rr := hlsRun r.1 es
+    (rr.1, r.2 ++ rr.2)
+
 /-! ### executable spec on the implementation's trace -/
 
 structure Spec where
